@@ -33,6 +33,38 @@ L6_SOURCES = {
 }
 
 
+def _declared_source(ctx, m, call):
+    """("class", path, name, "") for the record class the second argument of a get_common_field_args call is declared to be:
+    a local bound once by `x = cast(T, ..)` / `x: T = ..`, or a parameter annotated T, with T a dataclass of the package"""
+    a = call.args[1]
+    if not isinstance(a, ast.Name):
+        return None
+    fn = call
+    while fn is not None and not isinstance(fn, (ast.FunctionDef, ast.AsyncFunctionDef)):
+        fn = getattr(fn, "_parent", None)
+    if fn is None:
+        return None
+    tname = None
+    binds = [x for x in own_nodes(fn) if isinstance(x, (ast.Assign, ast.AnnAssign)) and any(isinstance(t, ast.Name) and t.id == a.id for t in (x.targets if isinstance(x, ast.Assign) else [x.target]))]
+    if len(binds) == 1:
+        b = binds[0]
+        if isinstance(b, ast.AnnAssign) and isinstance(b.annotation, ast.Name):
+            tname = b.annotation.id
+        elif isinstance(b, ast.Assign) and isinstance(b.value, ast.Call) and isinstance(b.value.func, ast.Name) and b.value.func.id == "cast" and len(b.value.args) == 2 \
+                and isinstance(b.value.args[0], ast.Name):
+            tname = b.value.args[0].id
+    elif not binds:
+        for p_ in fn.args.posonlyargs + fn.args.args + fn.args.kwonlyargs:
+            if p_.arg == a.id and isinstance(p_.annotation, ast.Name):
+                tname = p_.annotation.id
+    if tname is None:
+        return None
+    r = ctx.prog.resolve(m, tname)
+    if not r or r[0] != "class" or not ctx.prog.dataclass_fields(r[1]):
+        return None
+    return ("class", r[2].path, r[1].name, "")
+
+
 def _struct_names(ctx, L, path, name, sub=""):
     lay = L.of_path(path, name)
     core = lay.core()
@@ -69,7 +101,14 @@ def _slicing_general(ctx):
     a = [x.arg for x in dec.args.args]
     got = canon_ast(sd["ret"]) if sd["ret"] is not None else "?"
     want = f"self._realize({a[2]})[0]._decode({a[1]}, {a[2]}, {a[3]})"
-    ctx.ob("L6", dec, "SlicingGeneral decodes through the realised Slicing", got == want, "" if got == want else f"returns `{got[:160]}`", inst="slicing-decode")
+    okd = got == want
+    if not okd:
+        # on terms: every returning path hands back element 0 of the realised tuple, decoding the same object
+        from .util import return_keys as _rk6
+        rk_ = _rk6(ctx, dec, "L6")
+        okd = rk_ == {evaluator(ctx, dec, {}).ev(ast.parse(want, mode="eval").body).key()}
+        got = sorted(str(x) for x in rk_)[0] if rk_ else got
+    ctx.ob("L6", dec, "SlicingGeneral decodes through the realised Slicing", okd, "" if okd else f"returns `{got[:160]}`", inst="slicing-decode")
 
 
 def _padded_general(ctx):
@@ -123,6 +162,10 @@ def rule_L6(ctx):
             if isinstance(c, ast.Call) and isinstance(c.func, ast.Name) and c.func.id == "get_common_field_args" and len(c.args) == 2:
                 key = (m.path, norm(c.args[0]), norm(c.args[1]))
                 src = L6_SOURCES.get(key)
+                if src is None:
+                    # a site outside the reviewed table: the source's declared record class (the container dataclass it is cast
+                    # to / annotated with - L1c keeps those classes in step with the structs) names the fields it provides
+                    src = _declared_source(ctx, m, c)
                 if src is None:
                     ctx.ob("L6", c, "get_common_field_args site has a reviewed (dataclass, source) pair", False, f"unreviewed pair {key[1:]}", inst=f"pair:{key[1]}<-{key[2]}")
                     continue
@@ -350,13 +393,15 @@ def rule_L6(ctx):
     for p in [p for p in run_paths(ctx, lp, rule="L6") if p.end == "return"]:
         for call, env, st in calls_on(p, name="SampleParamLoopPoint"):
             ev = evaluator(ctx, lp, env)
-            got = {pf[i]: ev.ev(a) for i, a in enumerate(call.args) if i < len(pf)}
-            for k in call.keywords:
-                got[k.arg] = ev.ev(k.value)
-            src = norm(lp.args.args[1].arg)
+            # what each constructor parameter is bound to, however the arguments are assembled (positional, keywords, **mapping)
+            from .util import call_parts as _cpl
+            _n, pos_, kw_ = _cpl(ev.ev(call).key())
+            got = dict(zip(pf, pos_))
+            got.update(kw_)
+            src = lp.args.args[1].arg
             for fld in ("fine", "address"):
                 g = got.get(fld)
-                ok = g is not None and g.key().endswith("." + fld) and (g.key().startswith("cast(") or g.key().startswith(src))
+                ok = g == f"{src}.{fld}"
                 ctx.ob("L6", call, f"SampleParamLoopPoint.{fld} receives the record's {fld}", ok, "" if ok else f"receives {g}", inst=f"LoopPoint.{fld}")
     # (c) itemize
     it = ctx.fn("smpl_extract/elements.py", "LeafElement.itemize", "L6")
@@ -495,8 +540,21 @@ def rule_L6(ctx):
                     k_ = evaluator(ctx, fn, e_).ev(c_).key()
                     inner = k_[len(clsname) + 1:-1]
                     stars = sorted(x for x in _st(inner, ",") if x.startswith("**"))
-                    ok = ok and len(stars) == 2 and stars[0].startswith("**get_common_field_args(SampleParamCommon,") \
-                        and stars[1].startswith("**get_common_field_args(SampleParamOptionsSection,")
+                    if len(stars) == 2:
+                        ok = ok and stars[0].startswith("**get_common_field_args(SampleParamCommon,") \
+                            and stars[1].startswith("**get_common_field_args(SampleParamOptionsSection,")
+                    else:
+                        # the two groups written out field by field: every field of both dataclasses is bound to the field of
+                        # the same name of one source object per group
+                        from ..core.terms import DC_FIELDS as _dcf, SIGS as _sg
+                        from .util import call_parts as _cpk
+                        _n2, pos2, kw2 = _cpk(k_)
+                        bound = dict(zip(_sg.get(clsname) or (), pos2))
+                        bound.update(kw2)
+                        for grp in ("SampleParamCommon", "SampleParamOptionsSection"):
+                            flds = _dcf.get(grp) or ()
+                            srcs = {bound.get(f_, "?")[:-(len(f_) + 1)] if str(bound.get(f_, "?")).endswith("." + f_) else None for f_ in flds}
+                            ok = ok and bool(flds) and len(srcs) == 1 and None not in srcs and not stars
             ok = ok and n_seen >= 1
         ctx.ob("L6", calls[0] if calls else fn, f"{clsname} receives both the common parameters and the option nibbles", ok, "", inst=f"{clsname}-kwargs")
     # VelocityZone(**sanitize_container(zone), **aux)
